@@ -311,6 +311,129 @@ def native_wiring(ctx, P) -> None:
     ctx.check(okl, RWI, "Windows queue_events translates exactly what _read_events returned", "the record loop does not iterate over the result of self._read_events()", qe.loc)
 
 
+def struct_format_of(P, fi):
+    """(format string, number of unpack targets, name of the 4th target, the unpack call) of the record decoder; the format is
+    found through struct.unpack_from(fmt, ...) or <S>.unpack_from(...) with S = struct.Struct(fmt) bound at module or function level."""
+    structs = {}
+    for scope in (fi.module.tree, fi.node):
+        for n in ast.walk(scope):
+            if isinstance(n, ast.Assign) and isinstance(n.value, ast.Call) and dotted(n.value.func) == "struct.Struct" and n.value.args and len(n.targets) == 1 and isinstance(n.targets[0], ast.Name):
+                f = P.fold(n.value.args[0], fi.module)
+                if isinstance(f, str):
+                    structs[n.targets[0].id] = f
+    for n in ast.walk(fi.node):
+        if isinstance(n, ast.Assign) and isinstance(n.value, ast.Call) and isinstance(n.value.func, ast.Attribute) and n.value.func.attr in ("unpack_from", "unpack"):
+            recv = dotted(n.value.func.value)
+            fmt = None
+            if recv == "struct" and n.value.args:
+                fmt = P.fold(n.value.args[0], fi.module)
+            elif recv in structs:
+                fmt = structs[recv]
+            if isinstance(fmt, str):
+                nt = len(n.targets[0].elts) if isinstance(n.targets[0], ast.Tuple) else None
+                ln = n.targets[0].elts[3].id if nt == 4 and isinstance(n.targets[0].elts[3], ast.Name) else "length"
+                return fmt, nt, ln, n, structs
+    return None, None, "length", None, structs
+
+
+def expand_format(fmt: str) -> str:
+    """'4I' -> 'IIII'; byte-order prefix dropped."""
+    out, num = "", ""
+    for ch in fmt.lstrip("@=<>!"):
+        if ch.isdigit():
+            num += ch
+        elif ch.isspace():
+            continue
+        else:
+            out += ch * (int(num) if num else 1)
+            num = ""
+    return out
+
+
+def inotify_header(ctx, RH, P) -> None:
+    import struct
+
+    pf = P.find_method("Inotify", "_parse_event_buffer")
+    if pf is None:
+        raise AnalysisError("anchor vanished: Inotify._parse_event_buffer")
+    fmt, ntargets, len_name, call, structs = struct_format_of(P, pf)
+    if not isinstance(fmt, str):
+        raise AnalysisError("_parse_event_buffer: unpack format not found")
+    size = struct.calcsize(fmt)
+    codes = expand_format(fmt)
+    ctx.check(ntargets == len(codes), RH, f"unpack format {fmt!r} has as many fields as targets", f"format {fmt!r} vs {ntargets} targets", pf.loc)
+    ctx.check(
+        codes == "iIII",
+        RH,
+        "unpack format is the kernel's record head (s32 wd, u32 mask, u32 cookie, u32 len)",
+        f"the format {fmt!r} decodes the head as `{codes}`; struct inotify_event is `iIII`: the descriptor is signed (the queue-overflow record carries wd = -1 and is filtered by that value; "
+        "decoded unsigned it passes the filter and the wd->path lookup raises KeyError in the reader thread), mask / cookie / len are unsigned 32-bit",
+        f"{pf.module.relpath}:{call.lineno}",
+    )
+    # header-size terms: whatever expression is added to the cursor in the loop bound, the name slice and the advance
+    local = {}
+    for n in ast.walk(pf.node):
+        if isinstance(n, ast.Assign) and len(n.targets) == 1 and isinstance(n.targets[0], ast.Name):
+            local.setdefault(n.targets[0].id, []).append(n.value)
+
+    def val(e, depth=0):
+        if isinstance(e, ast.Constant) and isinstance(e.value, int):
+            return e.value
+        if isinstance(e, ast.Attribute) and e.attr == "size" and dotted(e.value) in structs:
+            return struct.calcsize(structs[dotted(e.value)])
+        if isinstance(e, ast.Call) and dotted(e.func) == "struct.calcsize" and e.args:
+            f = P.fold(e.args[0], pf.module)
+            return struct.calcsize(f) if isinstance(f, str) else None
+        if isinstance(e, ast.Name) and depth < 3:
+            vs = local.get(e.id, [])
+            if len(vs) == 1:
+                return val(vs[0], depth + 1)
+            v = P.fold(e, pf.module)
+            return v if isinstance(v, int) else None
+        v = P.fold(e, pf.module)
+        return v if isinstance(v, int) else None
+
+    def size_terms(expr, skip_names):
+        """Constant-valued operands of a sum, other than the cursor and the record's own length."""
+        out = []
+        stack = [expr]
+        while stack:
+            x = stack.pop()
+            if isinstance(x, ast.BinOp) and isinstance(x.op, ast.Add):
+                stack += [x.left, x.right]
+            elif isinstance(x, ast.Name) and x.id in skip_names:
+                continue
+            else:
+                v = val(x)
+                if v is not None and v > 1:
+                    out.append((v, x))
+        return out
+
+    cursor = None
+    for n in ast.walk(pf.node):
+        if isinstance(n, ast.AugAssign) and isinstance(n.op, ast.Add) and isinstance(n.target, ast.Name):
+            cursor = n.target.id
+    lits = []
+    for n in ast.walk(pf.node):
+        if isinstance(n, ast.While) and isinstance(n.test, ast.Compare):
+            for v, x in size_terms(n.test.left, {cursor, len_name}):
+                lits.append(("bound", v, x.lineno))
+        if isinstance(n, ast.Subscript) and isinstance(n.slice, ast.Slice):
+            for part in (n.slice.lower, n.slice.upper):
+                if part is not None:
+                    for v, x in size_terms(part, {cursor, len_name}):
+                        lits.append(("slice", v, x.lineno))
+        if isinstance(n, ast.AugAssign) and isinstance(n.op, ast.Add):
+            for v, x in size_terms(n.value, {cursor, len_name}):
+                lits.append(("advance", v, x.lineno))
+            names = {x.id for x in ast.walk(n.value) if isinstance(x, ast.Name)}
+            ctx.check(len_name in names, RH, "advance adds the record's own name length", f"the cursor advances by `{ast.unparse(n.value)}`", f"{pf.module.relpath}:{n.lineno}")
+    kinds = {k for k, v, l in lits}
+    ctx.check({"bound", "slice", "advance"} <= kinds, RH, "header size used in bound, slice and advance", f"header-size terms found only in {sorted(kinds)}", pf.loc)
+    for k, v, l in lits:
+        ctx.check(v == size, RH, f"{k} header size equals calcsize({fmt!r})={size}", f"the {k} uses header size {v}, the unpack format has {size} bytes: records are mis-aligned after the first", f"{pf.module.relpath}:{l}")
+
+
 def run(ctx) -> None:
     P = ctx.P
     RWn = ctx.rule("C20/windows-emission-contract", "per ReadDirectoryChangesW action: ADDED -> created of the entry's kind (+ sub-created for a directory under a recursive watch); REMOVED -> deleted of the entry's kind; MODIFIED -> modified of the entry's kind; RENAMED_OLD then RENAMED_NEW -> one moved(source, destination) of the entry's kind (+ sub-moved for a directory under a recursive watch); REMOVED_SELF -> DirDeletedEvent(root) and stop", floor=8)
@@ -629,48 +752,7 @@ def run(ctx) -> None:
 
     native_wiring(ctx, P)
 
-    # ---------------------------------------------------------------- inotify header constants
-    pf = P.find_method("Inotify", "_parse_event_buffer")
-    if pf is None:
-        raise AnalysisError("anchor vanished: Inotify._parse_event_buffer")
-    fmt = None
-    ntargets = None
-    len_name = "length"
-    for n in ast.walk(pf.node):
-        if isinstance(n, ast.Assign) and isinstance(n.value, ast.Call) and dotted(n.value.func) in ("struct.unpack_from", "struct.unpack"):
-            fmt = P.fold(n.value.args[0], pf.module)
-            if isinstance(n.targets[0], ast.Tuple):
-                ntargets = len(n.targets[0].elts)
-                if ntargets == 4 and isinstance(n.targets[0].elts[3], ast.Name):
-                    len_name = n.targets[0].elts[3].id
-    if not isinstance(fmt, str):
-        raise AnalysisError("_parse_event_buffer: unpack format not found")
-    import struct
-
-    size = struct.calcsize(fmt)
-    ctx.check(ntargets == len(fmt.replace("@", "").replace("=", "").replace("<", "").replace(">", "")), RH, f"unpack format {fmt!r} has as many fields as targets", f"format {fmt!r} vs {ntargets} targets", pf.loc)
-    lits = []
-    for n in ast.walk(pf.node):
-        if isinstance(n, ast.While):
-            for x in ast.walk(n.test):
-                if isinstance(x, ast.Constant) and isinstance(x.value, int) and x.value > 1:
-                    lits.append(("bound", x.value, x.lineno))
-        if isinstance(n, ast.Subscript) and isinstance(n.slice, ast.Slice):
-            for part in (n.slice.lower, n.slice.upper):
-                if part is not None:
-                    for x in ast.walk(part):
-                        if isinstance(x, ast.Constant) and isinstance(x.value, int) and x.value > 1:
-                            lits.append(("slice", x.value, x.lineno))
-        if isinstance(n, ast.AugAssign) and isinstance(n.op, ast.Add):
-            for x in ast.walk(n.value):
-                if isinstance(x, ast.Constant) and isinstance(x.value, int) and x.value > 1:
-                    lits.append(("advance", x.value, x.lineno))
-            names = {x.id for x in ast.walk(n.value) if isinstance(x, ast.Name)}
-            ctx.check(len_name in names, RH, "advance adds the record's own name length", f"the cursor advances by `{ast.unparse(n.value)}`", f"{pf.module.relpath}:{n.lineno}")
-    kinds = {k for k, v, l in lits}
-    ctx.check({"bound", "slice", "advance"} <= kinds, RH, "header size used in bound, slice and advance", f"header-size literals found only in {sorted(kinds)}", pf.loc)
-    for k, v, l in lits:
-        ctx.check(v == size, RH, f"{k} literal equals calcsize({fmt!r})={size}", f"the {k} uses header size {v}, the unpack format has {size} bytes: records are mis-aligned after the first", f"{pf.module.relpath}:{l}")
+    inotify_header(ctx, RH, P)
 
     # ---------------------------------------------------------------- Windows buffer walk
     bf = wm.functions.get("_parse_event_buffer")
@@ -747,6 +829,8 @@ VARIANTS = [
     dict(name="B FSEvents non-recursive filter inverted", expect="fire", rule="C20/nonrecursive-filter-unbypassable", edits=[(FS, "if self._watch.is_recursive or not self._is_recursive_event(event):", "if self._watch.is_recursive or self._is_recursive_event(event):")]),
     dict(name="B Windows walk never stops", expect="fire", rule="C20/windows-buffer-walk", edits=[("observers/winapi.py", "        if num_to_skip <= 0:\n            break\n", "")]),
     dict(name="E helper extraction in the FSEvents translator", expect="silent", edits=[(FS, "                    self._queue_deleted_event(event, src_path, src_dirname)\n                    self._fs_view.discard(event.inode)\n\n            if event.is_root_changed:", "                    self._forget(event, src_path, src_dirname)\n\n            if event.is_root_changed:"), (FS, "    def events_callback(self, paths", "    def _forget(self, event, src_path, src_dirname) -> None:\n        self._queue_deleted_event(event, src_path, src_dirname)\n        self._fs_view.discard(event.inode)\n\n    def events_callback(self, paths")]),
+    dict(name="B record head decoded as four unsigned words", expect="fire", rule="C20/header-constants-agree", edits=[(IC, 'struct.unpack_from("iIII", event_buffer, i)', 'struct.unpack_from("4I", event_buffer, i)')]),
+    dict(name="E record head through a struct.Struct object and a named size", expect="silent", edits=[(IC, "        i = 0\n        while i + 16 <= len(event_buffer):\n            wd, mask, cookie, length = struct.unpack_from(\"iIII\", event_buffer, i)\n            name = event_buffer[i + 16 : i + 16 + length].rstrip(b\"\\0\")\n            i += 16 + length", "        head = struct.Struct(\"iIII\")\n        hs = head.size\n        i = 0\n        while i + hs <= len(event_buffer):\n            wd, mask, cookie, length = head.unpack_from(event_buffer, i)\n            name = event_buffer[i + hs : i + hs + length].rstrip(b\"\\0\")\n            i += hs + length")]),
     dict(name="E header size named in a local", expect="silent", edits=[(IC, "        i = 0\n        while i + 16 <= len(event_buffer):", "        i = 0\n        while i + 16 <= len(event_buffer):  # header"), ]),
 ]
 
